@@ -93,3 +93,40 @@ def names_for(kind, d):
 
 def sym_row(env, names, stem, flavor='py'):
     return {f: env.real(f"{stem}_{i}", flavor) for i, f in enumerate(names)}
+
+
+# ---- state coverage of the inductive-step harnesses -----------------------------------------------------------------
+# A step "from an arbitrary state" is only an induction step if the harness injects EVERY field that carries state from one
+# call to the next.  If the object has grown a numeric / container attribute these harnesses do not know (an accumulator, a
+# cache, a compensation term), the step proves nothing about histories: that is reported as a harness error (exit 2,
+# "inconclusive"), never as success.  Explicit runs from fresh objects are unaffected.
+
+KNOWN_STATE = {
+    'WelfordTracker': {'tracked_value', 'N', 'sum_squares'},
+    'ExponentialSmoothingTracker': {'tracked_value', 'N', 'alpha'},
+    'MultiValueTracker': {'tracked_value', 'N', '_tracked_keys', '_base_tracker'},
+    'IncrementalSage': {'_model_function', 'feature_names', 'number_of_features', 'seen_samples', '_loss_function',
+                        '_smoothing_alpha', '_marginal_loss_tracker', '_model_loss_tracker', '_marginal_prediction_tracker',
+                        '_importance_trackers', '_variance_trackers', '_storage', '_imputer', '_loss_direction',
+                        'n_inner_samples', 'marginal_prediction'},
+    'IncrementalPFI': {'_model_function', 'feature_names', 'number_of_features', 'seen_samples', '_loss_function',
+                       '_smoothing_alpha', '_marginal_loss_tracker', '_model_loss_tracker', '_marginal_prediction_tracker',
+                       '_importance_trackers', '_variance_trackers', '_storage', '_imputer', 'n_inner_samples'},
+}
+
+
+def check_state_coverage(obj):
+    import collections
+    known = KNOWN_STATE.get(type(obj).__name__)
+    if known is None:
+        return
+    carriers = (int, float, complex, list, dict, set, tuple, collections.deque, Sym)
+    try:
+        import numpy as np
+        carriers = carriers + (np.ndarray, np.generic)
+    except ImportError:  # pragma: no cover
+        pass
+    extra = [a for a, v in vars(obj).items() if a not in known and isinstance(v, carriers) and not isinstance(v, bool)]
+    if extra:
+        raise HarnessError(f"{type(obj).__name__} carries state the inductive-step harness does not inject: {sorted(extra)}; "
+                           f"the step from an arbitrary state would not cover histories (extend KNOWN_STATE and the invariant)")
